@@ -59,8 +59,8 @@ func (p propSpec) allowUnsupported(h string) bool {
 var properties = map[string]propSpec{
 	"C01": {
 		Bounds: [2]map[string]any{
-			{"rows": "0..3 (comparison), 0..2 (boolean shapes, IN, BETWEEN, strings), 0..1 (LIKE)", "constants": "any finite non-negative float64 literal / any string ≤2 bytes", "cells": "any non-NaN float64; any byte string ≤2 (≤3 for LIKE subjects over a pattern-derived alphabet)", "predicates": "6 comparison operators × both orientations, negative and computed comparands; 6 boolean shapes × 36 operator pairs; [NOT] IN lists of 1..3 and IN over a root subquery of 0..2 rows; [NOT] BETWEEN (numbers, strings); 30 LIKE patterns × [NOT] plus every LIKE pattern ≤3 bytes over {a b % _ .} against every subject ≤2 bytes over {a b A .}; 6 IS forms"},
-			{"rows": "one more row in every harness", "constants": "same", "cells": "same", "predicates": "same"},
+			{"rows": "0..3 (comparison), 0..2 (boolean shapes, IN, BETWEEN, strings), 0..1 (LIKE)", "constants": "any finite non-negative float64 literal / any string ≤2 bytes", "cells": "any non-NaN float64; any byte string ≤2 (≤3 for LIKE subjects over a pattern-derived alphabet)", "predicates": "6 comparison operators × both orientations, negative and computed comparands; 6 boolean shapes × 36 operator pairs; [NOT] IN lists of 1..3 and IN over a root subquery of 0..2 rows; [NOT] BETWEEN (numbers, strings); 30 LIKE patterns × [NOT] plus every LIKE pattern ≤3 bytes over {a b % _ .} against every subject ≤2 bytes over {a b A .}; 6 IS forms; grammar-generated predicates: one or two atoms (comparison, [NOT] IN, [NOT] BETWEEN, IS [NOT] NULL) under NOT / AND / OR on 0..1 rows with a nullable column"},
+			{"rows": "one more row in every harness", "constants": "same", "cells": "same", "predicates": "same; grammar: 0..2 rows, and three-atom predicates (p con q) con r on 0..1 rows"},
 		},
 		Outside: []string{"predicates outside the template list (depth > 3)", "LIKE patterns outside the 30 listed", "negative literals (the parser turns them into unary minus; covered under C02)", "NaN cells", "mixed-kind columns", "IN over a subquery (covered under C07)"},
 	},
